@@ -97,12 +97,19 @@ def build_profile(cands, ballots, names=None, cand_order=None):
 DEFAULTS = {"m": 1, "quota": "droop", "simul": True, "tb": "none", "xfer": "fractional", "m1": 2}
 
 
+def _full_transfer(winner, fpv, ballots, threshold):
+    from votekit.utils import remove_cand
+    return remove_cand(winner, tuple(ballots))
+
+
 def constructor(cfg, profile, omit_defaults=False):
     """the constructor call of the rule; with omit_defaults every argument whose value is the documented default is left out, so that the
     defaults themselves (m=1, quota='droop', simultaneous=True, transfer=fractional_transfer, tiebreak=None, m_1=2, m_2=1) are exercised"""
     r = cfg["rule"]
     tb = None if cfg["tb"] == "none" else cfg["tb"]
-    xfer = {"fractional": VE.fractional_transfer, "random": VE.random_transfer}.get(cfg["xfer"])
+    # "full": a user-supplied transfer callable (the documented signature: winner, tally, ballots led by the winner, threshold) that hands
+    # every ballot on at full weight -- the rule SequentialRCV is documented to be, here given to STV / Alaska through `transfer=`
+    xfer = {"fractional": VE.fractional_transfer, "random": VE.random_transfer, "full": _full_transfer}.get(cfg["xfer"])
 
     def kw(**k):
         names = {"m": "m", "quota": "quota", "simultaneous": "simul", "tiebreak": "tb", "transfer": "xfer", "m_1": "m1", "m_2": "m"}
